@@ -193,7 +193,7 @@ def type_label_map(tracedir):
     return out
 
 
-def run_one(bdir, system, events, lint=True, extra_args=()):
+def run_one(bdir, system, events, lint=True, extra_args=(), view_from=0):
     """Returns the execution (list of records for EmuTrace) and the EmuRun."""
     import shutil
     d = core.mkscratch("eh")
@@ -224,7 +224,8 @@ def run_one(bdir, system, events, lint=True, extra_args=()):
         for i, e in enumerate(events):
             rec = {"e": "ev", "th": e["th"], "m": e["m"], "mc": e.get("mc", e["m"][0]),
                    "a": e.get("a", []), "j": bool(e.get("j", False)),
-                   "hasview": vs is not None, "view": vs[i] if vs is not None else []}
+                   "hasview": vs is not None and i >= view_from,
+                   "view": vs[i] if (vs is not None and i >= view_from) else []}
             recs.append(rec)
         verdict = r.verdict if r.verdict in ("ok", "fail") else r.verdict
         recs.append({"e": "end", "verdict": verdict})
@@ -254,7 +255,7 @@ def conformance(ck, bdir, graph, tier, limit_quick=3000, limit_thorough=None, li
     results = core.pmap(one, hs)
     executions = [r[0] for r in results]
     tvr = tv.validate("EmuTrace", "EmuTrace.cfg", executions, None,
-                      chunk=max(40, len(executions) // 14 + 1), parallel=14)
+                      chunk=max(40, len(executions) // 8 + 1), parallel=8)
     ck.cov["traces_validated_against_impl"] += len(tvr.accepted)
     ck.cov["states"] += tvr.states
     ck.cov["transitions"] += tvr.generated
